@@ -56,6 +56,7 @@ RunResult execute_plan(const Plan& plan, Replicas& reps, const std::string& rep_
     env.rep->apply_dispatch();
     Stream* old_s = tl_stream; HashStub* old_h = tl_hash;
     tl_stream = &env.stream; tl_hash = &env.hash;
+    const int* old_step = tl_step_ptr; tl_step_ptr = &env.step;
     env.logf("plan %s rep-independent", plan.scenario.c_str());
     try {
         sc->run(plan, env);
@@ -67,7 +68,7 @@ RunResult execute_plan(const Plan& plan, Replicas& reps, const std::string& rep_
         env.res.v = {"C10", "liveness:sampler-not-terminating", strf("a library call made %zu random requests without returning (bound: scripted answers + 256 fair ones)", o.requests), env.step};
         env.logf("VIOLATION liveness step %d", env.step);
     }
-    tl_stream = old_s; tl_hash = old_h;
+    tl_stream = old_s; tl_hash = old_h; tl_step_ptr = old_step;
     env.rep->apply_dispatch();
     uint8_t d[32]; env.logsha.final(d); env.res.fingerprint = hex(d, 16);
     env.res.counters["steps"] += (uint64_t) env.step;
@@ -87,6 +88,7 @@ static JsonP result_to_json(const RunResult& r) {
     auto c = Json::obj(); for (auto& kv : r.counters) c->seti(kv.first, (int64_t) kv.second); j->set("counters", c);
     std::string cs; for (auto& p : r.cases) { cs += strf("%016llx%c", (unsigned long long) p.first, p.second ? '+' : '-'); } j->set("cases", cs);
     if (!r.log_lines.empty()) { auto a = Json::arr(); for (auto& l : r.log_lines) a->push(Json::str(l)); j->set("log", a); }
+    if (!r.sched.empty()) { std::string ss; for (auto& t : r.sched) { ss += t; ss += ' '; } j->set("sched", ss); }
     return j;
 }
 static RunResult result_from_json(const Json& j) {
@@ -97,6 +99,7 @@ static RunResult result_from_json(const Json& j) {
     std::string cs = j.gets("cases");
     for (size_t i = 0; i + 17 <= cs.size(); i += 17) r.cases.push_back({strtoull(cs.substr(i, 16).c_str(), nullptr, 16), cs[i + 16] == '+'});
     auto l = j.get("log"); if (l) for (auto& e : l->a) r.log_lines.push_back(e->s);
+    { std::string ss = j.gets("sched"), cur; for (char c : ss) { if (c == ' ') { if (!cur.empty()) r.sched.push_back(cur); cur.clear(); } else cur += c; } if (!cur.empty()) r.sched.push_back(cur); }
     return r;
 }
 
@@ -115,7 +118,7 @@ static UnitPick pick(const Batch& b, uint64_t idx) {
 static void split_duo(const Plan& p, Plan& A, Plan& B) {
     A.scenario = B.scenario = p.scenario; bool second = false;
     for (auto& kv : p.cfg) { if (kv.first.compare(0, 2, "B.") == 0) B.cfg[kv.first.substr(2)] = kv.second; else A.cfg[kv.first] = kv.second; }
-    for (auto& op : p.ops) { if (op.kind == "||") { second = true; continue; } (second ? B : A).ops.push_back(op); }
+    for (auto& op : p.ops) { if (op.kind == "||") { second = true; continue; } if (op.kind == "SCHED") continue; (second ? B : A).ops.push_back(op); }
     if (B.cfg.empty()) B.cfg = A.cfg;
 }
 static Plan join_duo(const Plan& A, const Plan& B) {
@@ -141,8 +144,9 @@ static RunResult run_fixed(const Plan& plan, Replicas& reps, const std::string& 
         RunResult ra, rb; Scheduler sched; { uint64_t hh = hash64(A.to_json()->dump(false)); sched.p_switch_log2 = hh % 3 == 0 ? 62 : (uint32_t) (2 + (hh >> 8) % 17); }   // 62: coarse schedule, preemption only at the callbacks
         sched.add([&] { ra = execute_plan(A, reps, p.reps[0], p.views[0], verbose, focus, false); });
         sched.add([&] { rb = execute_plan(B, reps, p.reps[0], p.views[0], verbose, focus, false); });
+        for (auto& op : plan.ops) if (op.kind == "SCHED") sched.set_list(op.s);   // explicit (minimised) schedule instead of the PRNG
         sched.run(hash64(B.to_json()->dump(false)));
-        RunResult out = ra;
+        RunResult out = ra; out.sched = sched.taken;
         for (auto& kv : rb.counters) out.counters[kv.first] += kv.second;
         out.cases.insert(out.cases.end(), rb.cases.begin(), rb.cases.end());
         out.counters["fault:preemption_inside_library_call"] += sched.switches; out.counters["probe:yield_points_passed"] += sched.global_yield;
@@ -285,6 +289,36 @@ static IsoResult exec_isolated(const Plan& plan, Replicas& reps, const std::stri
 static bool same_class(const RunResult& r, const Violation& v) { return r.violated && r.v.prop == v.prop && r.v.oracle == v.oracle; }
 // (debug aid) JV_REPORT_ALL=1 makes a check report violations of every property its batches come across
 
+// Removing plan ops [from,to) under an explicit schedule: decisions that sit inside a removed op go, decisions inside later ops
+// of the same task are renumbered. step_offset: env.step of the first op of a (sub-)plan (0 or 1, per scenario).
+static Plan erase_ops_renumbering(const Plan& before, size_t from, size_t to, int step_offset) {
+    bool conc = before.scenario == "conc"; size_t ntasks = (size_t) std::max<int64_t>(before.c("tasks", 3), 1);
+    std::map<int, std::vector<int>> removed;   // task -> removed step numbers
+    { int task = 0; std::map<int, int> idx;
+      for (size_t i = 0; i < before.ops.size(); i++) {
+          const Op& op = before.ops[i];
+          if (op.kind == "||") { task = 1; continue; }
+          if (op.kind == "SCHED") continue;
+          int t = conc ? (int) ((size_t) op.arg(3) % ntasks) : task;
+          if (conc && op.kind != "T") continue;
+          int stp = idx[t]++ + (conc ? 0 : step_offset);
+          if (i >= from && i < to) removed[t].push_back(stp);
+      } }
+    Plan out = before; out.ops.erase(out.ops.begin() + (long) from, out.ops.begin() + (long) to);
+    for (auto& op : out.ops) if (op.kind == "SCHED") {
+        std::vector<std::string> nt;
+        for (auto& tk : op.s) {
+            int a = 0, st = 0, b = 0; unsigned long long k = 0;
+            if (sscanf(tk.c_str(), "%d@%d.%llu:%d", &a, &st, &k, &b) != 4) { nt.push_back(tk); continue; }
+            auto& rm = removed[a]; int shift = 0; bool gone = false;
+            for (int r : rm) { if (r == st) gone = true; else if (r < st) shift++; }
+            if (!gone) nt.push_back(strf("%d@%d.%llu:%d", a, st - shift, k, b));
+        }
+        op.s = nt;
+    }
+    return out;
+}
+
 static Plan shrink(const Plan& start, Replicas& reps, const std::string& mode, const UnitPick& p, const std::string& focus, const Violation& v, int budget, int& used) {
     Plan best = start; used = 0;
     auto test = [&](const Plan& cand) -> bool {
@@ -321,6 +355,46 @@ static Plan shrink(const Plan& start, Replicas& reps, const std::string& mode, c
             if (cfg == best.cfg) continue;
             Plan cand = best; cand.cfg = cfg;
             if (test(cand)) { best = cand; progress = true; break; }
+        }
+    }
+    // Schedule phase: replace the PRNG-driven schedule by the explicit list of decisions it took, then ddmin that list.
+    if (mode == "duo" || best.scenario == "conc") {
+        bool has = false; for (auto& op : best.ops) if (op.kind == "SCHED") has = true;
+        IsoResult r0 = exec_isolated(best, reps, mode, p, focus, false, 300);
+        if (!has && same_class(r0.r, v) && !r0.r.sched.empty()) {
+            Plan withs = best; withs.ops.push_back({"SCHED", {}, r0.r.sched});
+            int budget2 = budget + 120;   // the schedule gets its own allowance
+            auto test2 = [&](const Plan& cand) -> bool { if (used >= budget2) return false; used++; IsoResult r = exec_isolated(cand, reps, mode, p, focus, false, 300); return same_class(r.r, v); };
+            if (test2(withs)) {
+                best = withs; size_t si = best.ops.size() - 1;
+                size_t chunk2 = best.ops[si].s.size() / 2;
+                while (chunk2 >= 1 && used < budget2) {
+                    bool any = false;
+                    for (size_t st = 0; st < best.ops[si].s.size() && used < budget2;) {
+                        Plan cand = best; auto& tk = cand.ops[si].s; size_t e = std::min(tk.size(), st + chunk2);
+                        tk.erase(tk.begin() + (long) st, tk.begin() + (long) e);
+                        if (test2(cand)) { best = cand; any = true; } else st += chunk2;
+                    }
+                    if (!any) chunk2 /= 2; else chunk2 = std::min(chunk2, std::max<size_t>(best.ops[si].s.size() / 2, 1));
+                    if (best.ops[si].s.empty()) break;
+                }
+                // Second pass over the plan ops, now that the schedule no longer changes when ops go (PRNG-driven schedules made
+                // most removals "happen not to fail").
+                int budget3 = budget2 + 150; int off = sc->step_offset();
+                auto test3 = [&](const Plan& cand) -> bool { if (used >= budget3) return false; used++; IsoResult r = exec_isolated(cand, reps, mode, p, focus, false, 300); return same_class(r.r, v); };
+                size_t chunk3 = best.ops.size() / 2;
+                while (chunk3 >= 1 && used < budget3) {
+                    bool any = false;
+                    for (size_t st = 0; st < best.ops.size() && used < budget3;) {
+                        size_t e = std::min(best.ops.size(), st + chunk3); bool structural = false;
+                        for (size_t q = st; q < e; q++) if (best.ops[q].kind == "SCHED" || best.ops[q].kind == "||") structural = true;
+                        if (structural) { st += chunk3 > 1 ? 1 : chunk3; if (chunk3 > 1) continue; else continue; }
+                        Plan cand = erase_ops_renumbering(best, st, e, off);
+                        if (test3(cand)) { best = cand; any = true; } else st += chunk3;
+                    }
+                    if (!any) chunk3 /= 2; else chunk3 = std::min(chunk3, std::max<size_t>(best.ops.size() / 2, 1));
+                }
+            }
         }
     }
     return best;
@@ -441,8 +515,10 @@ static void write_evidence(CheckState& st, double wall, int nviol, const std::ve
     j->set("coverage", cov);
     auto as = Json::arr(); for (auto& a : sp.assumptions) as->push(Json::str(a)); j->set("assumptions", as);
     j->setd("wall_s", wall); j->seti("violations", nviol);
-    mkdir((verif_root() + "/evidence").c_str(), 0755);
-    write_file(verif_root() + "/evidence/" + sp.prop + ".json", j->dump() + "\n");
+    // JV_EVIDENCE_DIR: runs against seeded changes (bin/mutcheck) must not overwrite the evidence of the real tree
+    std::string edir = getenv("JV_EVIDENCE_DIR") ? getenv("JV_EVIDENCE_DIR") : verif_root() + "/evidence";
+    mkdir(edir.c_str(), 0755);
+    write_file(edir + "/" + sp.prop + ".json", j->dump() + "\n");
 }
 
 int run_check(const std::string& prop, const std::string& tier, uint64_t seed, int workers) {
@@ -636,6 +712,20 @@ int run_selftest(uint64_t seed, int n) {
             if (!pj || !Plan::from_json(*pj, rt)) { printf("selftest: plan of %s does not round-trip through JSON\n", sc->name()); bad++; continue; }
             RunResult d = execute_plan(rt, reps, p.reps[0], p.views[0], false, "", false);
             if (d.fingerprint != c.fingerprint) { printf("selftest: %s seed %llu: replay from JSON differs\n", sc->name(), (unsigned long long) s); bad++; }
+            // explicit schedules: the decisions a PRNG-driven schedule took, replayed as a list, give the same run
+            if (!c.sched.empty()) {
+                Plan ex = plan; ex.ops.push_back({"SCHED", {}, c.sched});
+                RunResult e2 = execute_plan(ex, reps, p.reps[0], p.views[0], false, "", false);
+                if (e2.fingerprint != c.fingerprint || e2.sched != c.sched) { printf("selftest: %s seed %llu: explicit-schedule replay differs from the PRNG-driven run\n", sc->name(), (unsigned long long) s); bad++; }
+            }
+            if (i < 3 && std::string(sc->name()) != "conc") {
+                Plan pb = sc->generate(mix3(s, 0xD00, 7), {}); pb.scenario = sc->name();
+                Plan duo = join_duo(plan, pb);
+                RunResult d1 = run_fixed(duo, reps, "duo", p, "", false);
+                Plan ex = duo; ex.ops.push_back({"SCHED", {}, d1.sched});
+                RunResult d2 = run_fixed(ex, reps, "duo", p, "", false);
+                if (d1.sched.empty() || d1.fingerprint != d2.fingerprint || d1.sched != d2.sched || d1.violated != d2.violated) { printf("selftest: %s seed %llu: duo explicit-schedule replay differs (%zu vs %zu decisions)\n", sc->name(), (unsigned long long) s, d1.sched.size(), d2.sched.size()); bad++; }
+            }
         }
     }
     printf("selftest: %llu (scenario,seed) pairs x 4 executions, %d mismatches\n", (unsigned long long) total, bad);
